@@ -97,13 +97,11 @@ theorem removeFromGroups_nonempty (sh : List (String × SharedGroup)) (cid : Str
   have := (List.mem_filter.mp hp).2
   intro e; simp [e] at this
 
-theorem handleDisconnection_dinv {s s' : RState} {id : Nat} {r : Option String} (h : DInv s)
-    (hn : s.notifications = []) (hd : handleDisconnection s id r = .ok s') :
-    DInv s' ∧ s'.notifications = [] := by
-  rw [handleDisconnection_eq] at hd
-  split at hd
-  · simp only [Except.ok.injEq] at hd; subst hd; exact ⟨h, hn⟩
-  · rename_i c hc
+/-- the state `handle_disconnection` has built when it wakes the parked group members -/
+theorem hdFinal_dinv {s : RState} {id : Nat} {r : Option String} {c : Conn} (h : DInv s)
+    (hn : s.notifications = []) (hc : getConn s id = some c) :
+    DInv (hdFinal s id c r) ∧ (hdFinal s id c r).notifications = [] := by
+  · unfold hdFinal
     obtain ⟨k1, _, _, _, k5, k6, k7, k8, _, _, _⟩ := hdNotify_core s c r
     -- the state after the removal
     have hclean := datalogClean_eq (hdNotify s c r).datalog id
@@ -147,13 +145,16 @@ theorem handleDisconnection_dinv {s s' : RState} {id : Nat} {r : Option String} 
       rcases c3 q hq' with hnil | ⟨w, hw, e⟩
       · simp at hnil
       · exact e ▸ (h.wt fd hfd w hw).1
+    replace hreqs : ReqsOK (N s) ((c.tracker.requests ++ (datalogClean (hdNotify s c r).datalog id).2).map
+        (atGroupCursor (hdNotify s c r).shared)) := fun q hq => by
+      obtain ⟨q0, hq0, rfl⟩ := List.mem_map.mp hq
+      rw [(atGroupCursor_fields _ _).2.1]; exact hreqs q0 hq0
     have hnt1 : (hdRemoved (hdNotify s c r) id c).notifications = [] := by
       show (hdNotify s c r).notifications = []; rw [k8, hn]
-    simp only [] at hd
-    split at hd
-    · simp only [Except.ok.injEq] at hd; subst hd
-      obtain ⟨rs1, rs2⟩ := rewindRequests_spec (retransmissionMap c.out.inflight [])
-        (c.tracker.requests ++ (datalogClean (hdNotify s c r).datalog id).2)
+    simp only []
+    split
+    · obtain ⟨rs1, rs2⟩ := rewindRequests_spec (retransmissionMap c.out.inflight [])
+        ((c.tracker.requests ++ (datalogClean (hdNotify s c r).datalog id).2).map (atGroupCursor (hdNotify s c r).shared))
         (hdRemoved (hdNotify s c r) id c).shared [] (N s) h1.grp (ReqsOK.nil _) hreqs
       refine ⟨?_, hnt1⟩
       refine ((h1.with_shared _ rs1).with_graveyard _ fun p hp ss hss => ?_).congr rfl rfl rfl rfl rfl rfl rfl
@@ -161,11 +162,75 @@ theorem handleDisconnection_dinv {s s' : RState} {id : Nat} {r : Option String} 
       · exact h1.grv p hp ss hss
       · simp only [Option.some.injEq] at hss; subst hss
         exact ⟨fun q hq => by have := rs2 q hq; rw [← hN] at this; exact this, rfl⟩
-    · simp only [Except.ok.injEq] at hd; subst hd
-      refine ⟨?_, hnt1⟩
+    · refine ⟨?_, hnt1⟩
       refine (h1.with_graveyard _ fun p hp ss hss => ?_).congr rfl rfl rfl rfl rfl rfl rfl
       rcases mem_ainsert hp with hp | rfl
       · exact h1.grv p hp ss hss
       · simp at hss
+
+/-- `handle_disconnection` reaches no panic site and keeps the invariant (no notification pending) -/
+theorem handleDisconnection_good' {s : RState} {id : Nat} {r : Option String} (h : DInv s)
+    (hn : s.notifications = []) :
+    Good A (fun s' => DInv s' ∧ s'.notifications = []) (handleDisconnection s id r) := by
+  rw [handleDisconnection_eq]
+  split
+  · exact ⟨h, hn⟩
+  · rename_i c hc
+    obtain ⟨h1, hn1⟩ := hdFinal_dinv (r := r) h hn hc
+    exact (wakeParked_good h1).mono fun s' q => ⟨q.1, by rw [q.2, hn1]⟩
+
+/-! `handle_disconnection` consults no oracle: it never ends in `badChoice` -/
+
+theorem track_no_badChoice (s : RState) (id : Nat) (r : DataRequest) (msg : String) :
+    track s id r ≠ .error (.badChoice msg) := by
+  unfold track; split <;> simp
+
+theorem reschedule_no_badChoice (s : RState) (id : Nat) (r : SchedReason) (msg : String) :
+    reschedule s id r ≠ .error (.badChoice msg) := by
+  unfold reschedule
+  split
+  · simp
+  · split <;> simp
+
+theorem drainNotifications_no_badChoice (msg : String) : ∀ (ns : List (Nat × DataRequest)) (s : RState),
+    drainNotifications s ns ≠ .error (.badChoice msg)
+  | [], s => by simp [drainNotifications]
+  | (id, r) :: rest, s => by
+    simp only [drainNotifications]
+    split
+    · rename_i e he
+      intro h; simp only [Except.error.injEq] at h; subst h
+      exact track_no_badChoice _ _ _ _ he
+    · split
+      · rename_i e he
+        intro h; simp only [Except.error.injEq] at h; subst h
+        exact reschedule_no_badChoice _ _ _ _ he
+      · exact drainNotifications_no_badChoice msg rest _
+
+theorem wakeParkedSorted_no_badChoice (msg : String) : ∀ (logs : List Nat) (s : RState),
+    wakeParkedSorted s logs ≠ .error (.badChoice msg)
+  | [], s => by simp [wakeParkedSorted]
+  | i :: rest, s => by
+    rw [wakeParkedSorted_cons]
+    split
+    · exact wakeParkedSorted_no_badChoice msg rest s
+    · split
+      · rename_i e he
+        intro h; simp only [Except.error.injEq] at h; subst h
+        exact drainNotifications_no_badChoice msg _ _ he
+      · exact wakeParkedSorted_no_badChoice msg rest _
+
+theorem handleDisconnection_no_badChoice (s : RState) (id : Nat) (r : Option String) (msg : String) :
+    handleDisconnection s id r ≠ .error (.badChoice msg) := by
+  rw [handleDisconnection_eq]
+  split
+  · simp
+  · exact wakeParkedSorted_no_badChoice msg _ _
+
+theorem handleDisconnection_dinv {s s' : RState} {id : Nat} {r : Option String} (h : DInv s)
+    (hn : s.notifications = []) (hd : handleDisconnection s id r = .ok s') :
+    DInv s' ∧ s'.notifications = [] := by
+  have := handleDisconnection_good' (A := fun _ => True) (id := id) (r := r) h hn
+  rw [hd] at this; exact this
 
 end Router
